@@ -2,7 +2,7 @@
 # tools/seedtest.sh <seed-dir> [tier]: apply seeded/<id>/patch.diff to /repo, run the check of its property, undo.
 # Prints DETECTED / MISSED and stores the outcome in <seed-dir>/result-<tier>.txt
 set -u
-D="$1"; TIER="${2:-quick}"
+D=$(cd "$1" && pwd); TIER="${2:-quick}"
 P=$(python3 -c "import json,sys;print(json.load(open('$D/meta.json'))['property'])")
 cd /verif
 if ! git -C /repo diff --quiet; then echo "/repo has local modifications; refusing"; exit 2; fi
